@@ -102,7 +102,18 @@ TSrv ==
   /\ Report(Flag(~Ev.ok /\ Ev.blocked # <<>>, "ribcsHang") \cup Flag(~Ev.ok /\ Ev.blocked = <<>>, "ribcsSetup")
             \cup Flag(Ev.ok /\ ~NoDanglingIn(LNh(Ev.st), LNhg(Ev.st), LIp(Ev.st)), "KF:ribConcurrentCallsDangling"))
 
-CTNext == TStart \/ TStep \/ TEnd \/ TSrv
+\* the free-running hammer (several goroutines calling AddEntry / DeleteEntry on one RIB at once, race detector on): the
+\* quiescent accounting of GribiRIBCS.Accounted on the recorded answers
+UnionOf(cs, fld) == UNION {ToSetOf(cs[i][fld]) : i \in DOMAIN cs}
+THammer ==
+  /\ IsEvent("chammer")
+  /\ UNCHANGED csvars
+  /\ LET answered == UnionOf(Ev.calls, "oks") \cup UnionOf(Ev.calls, "fails") \cup ToSetOf(Ev.pend)
+         lost == {i \in DOMAIN Ev.calls : ~Ev.calls[i].err /\ Ev.calls[i].id \notin answered}
+     IN Report(Flag(Ev.hung # <<>>, "ribcsHang") \cup Flag(Ev.hung = <<>> /\ Ev.err # "", "ribcsSlow")
+               \cup Flag(Ev.hung = <<>> /\ Ev.err = "" /\ lost # {}, "ribcsLost"))
+
+CTNext == TStart \/ TStep \/ TEnd \/ TSrv \/ THammer
 CTSpec == CTInit /\ [][CTNext]_ctvars
 
 Matched == TLCGet("stats").diameter - 1
